@@ -788,6 +788,8 @@ class ANF:
                 # a comprehension over a display is the display of its elements (like the unrolled loop)
                 try:
                     items = expand_comp(t)
+                    if items is not None:
+                        items = [_refold(i_) for i_ in items]
                 except Exception:       # noqa
                     items = None
                 if items is not None and isinstance(e, ast.DictComp):
@@ -1640,6 +1642,30 @@ def walk(t):
 def contains(t, sub):
     k = key(sub)
     return any(key(x) == k for x in walk(t))
+
+
+def _refold(t, _memo=None):
+    """constant subscripts of displays that only became constant when a comprehension was expanded: {K: V, ..}[K] is V,
+    (a, b)[1] is b"""
+    memo = {} if _memo is None else _memo
+    if not isinstance(t, tuple) or not t:
+        return t
+    r = memo.get(id(t))
+    if r is not None:
+        return r[1]
+    out = tuple(_refold(x, memo) if isinstance(x, tuple) else x for x in t)
+    if out[0] == "idx" and len(out) == 3 and isinstance(out[2], tuple) and len(out[2]) == 1 and is_const(out[2][0]):
+        b, i = out[1], out[2][0]
+        if isinstance(b, tuple) and b and b[0] == "dict" and all(is_const(k_) for k_, _ in b[1]):
+            for k_, v_ in b[1]:
+                if k_ == i:
+                    out = v_
+                    break
+        elif isinstance(b, tuple) and b and b[0] in ("list", "tuple") and isinstance(i[1], int) and not isinstance(i[1], bool) \
+                and -len(b[1]) <= i[1] < len(b[1]):
+            out = b[1][i[1]]
+    memo[id(t)] = (t, out)
+    return out
 
 
 def subst(t, mapping, _memo=None):
